@@ -272,3 +272,27 @@ pub proof fn lemma_sig_ns_all_slash(n: Seq<char>)
     lemma_join_ends(keep_ns(ps));
     assert(sig_ns(n)[0] != '/');
 }
+
+// ---- for clean segments nothing is dropped ----
+pub proof fn lemma_keep_ns_all(segs: Seq<Seq<char>>)
+    requires slash_free_nonempty(segs)
+    ensures keep_ns(segs) == segs
+    decreases segs.len()
+{
+    if segs.len() > 0 {
+        let init = segs.drop_last();
+        assert forall|i: int| 0 <= i < init.len() implies (#[trigger] init[i]).len() > 0 && !has_char(init[i], '/') by { assert(init[i] == segs[i]); }
+        lemma_keep_ns_all(init);
+        assert(segs[segs.len() - 1].len() > 0);
+        assert(init.push(segs.last()) =~= segs);
+    } else {
+        assert(keep_ns(segs) =~= segs);
+    }
+}
+pub proof fn lemma_sig_ns_normal(segs: Seq<Seq<char>>)
+    requires segs.len() > 0, slash_free_nonempty(segs)
+    ensures sig_ns(join_segs(segs)) == join_segs(segs)
+{
+    lemma_split_of_join(segs);
+    lemma_keep_ns_all(segs);
+}
